@@ -3,7 +3,7 @@ sys.path.insert(0,'/verif')
 # run a single C04 run on a scratch copy and print the trace
 from vlib import core
 ctx=core.Ctx('DBG')
-ctx.inject('internal/counter'); ctx.instrument('-files','internal/counter')
+ctx.inject('internal/counter', also=('c03_verif_test.go','c04_verif_test.go')); ctx.instrument('-files','internal/counter')
 run=json.loads(sys.argv[1])
 recs,rc,out=ctx.run_harness('./internal/counter','TestVerifC04',inp={'runs':[run]})
 for r in recs:
